@@ -811,7 +811,10 @@ ProcDecl:
 ProcBody:
         ProcLocalDeclList States LocFlags Init Transitions
 	| ProcLocalDeclList States Branchpoints LocFlags Init Transitions
-	| /* empty */
+	| /* empty */ {
+	    // as the XML reader says for a template without an init element
+	    CALL(@$, @$, handle_error(TypeException{"$Missing_initial_location"}));
+	}
         ;
 
 ProcLocalDeclList:
